@@ -5,4 +5,5 @@ let () =
   | _ :: "pool" :: _ -> R_pool.run ()
   | _ :: "stack" :: fence :: _ -> R_stack.run (int_of_string fence)
   | _ :: "arena" :: _ -> R_arena.run ()
+  | _ :: "minblock" :: _ -> R_minblock.run ()
   | _ -> prerr_endline "usage: replay <topic> [args]"; exit 2
